@@ -600,3 +600,45 @@ def family_inflight_fill(tier, seed):
                     m = {"id": "1.100000001", "event_id": "30000001", "market_type": "WIN", "winners": 1, "bsp": True, "persistence": True, "runners": [11, 12], "updates": ups}
                     out.append({"id": "if%d" % k, "cfg": {}, "markets": [m], "strategies": [{"name": "A", "max_live_trade_count": 1000, "script": script}]})
     return out
+
+
+def family_cross_market(tier, seed):
+    """one recorded file carrying two markets of an event (every message re-delivers the last book of the market
+    it does not update, with that book's old publish time, so the clock steps back); while it is shown a book of
+    one market the strategy sends requests for the other one.  The request waits for an update of ITS market
+    that lies more than the latency after the request."""
+    out = []
+    k = 0
+
+    def up(pt, sel_a, sel_b, trd=0.0, inplay=False):
+        return {"pt": pt, "status": "OPEN", "version": 1, "inplay": inplay, "bet_delay": 1 if inplay else 0,
+                "rstat": {str(sel_a): ["ACTIVE", 50.0, None], str(sel_b): ["ACTIVE", 50.0, None]},
+                "books": {str(sel_a): _bk([[2.8, 10.0]], [[3.0, 10.0]], [[3.0, trd]] if trd else []), str(sel_b): _bk([[5.0, 10.0]], [[5.5, 10.0]], [])}}
+
+    for first in ("X", "Y"):                       # which market the file starts with (= is re-delivered first)
+        for gap in (50, 400, 2000):                # next update of the target market after the request
+            for op in ("place", "place_through", "cancel", "replace"):
+                for inplay in (False, True):
+                    k += 1
+                    X, Y = "1.100000001", "1.100000002"
+                    tx = [0, 1000, 3000, 3000 + gap + 100, 9000]         # X: the strategy acts on X's book at 3000
+                    ty = [10, 1500, 3000 + gap, 8000, 9500] if first == "X" else [-10 + 20, 1500, 3000 + gap, 8000, 9500]
+                    if first == "Y":
+                        tx = [t + 20 for t in tx]
+                    mx = {"id": X, "event_id": "30000001", "market_type": "WIN", "winners": 1, "bsp": True, "persistence": True, "runners": [11, 12],
+                          "updates": [up(t, 11, 12, inplay=inplay) for t in tx]}
+                    my = {"id": Y, "event_id": "30000001", "market_type": "WIN", "winners": 1, "bsp": True, "persistence": True, "runners": [21, 22],
+                          "updates": [up(t, 21, 22, trd=(4.0 if i >= 3 else 0.0), inplay=inplay) for i, t in enumerate(ty)]}
+                    t_act = tx[2]
+                    script = {}
+                    if op in ("place", "place_through"):
+                        script["%s|%d|book" % (X, t_act)] = [{"op": "place", "on": Y, "o": "h1", "t": "th1", "sel": 21, "side": "BACK" if op == "place" else "LAY",
+                                                             "price": 3.0, "size": 4.0}]
+                    else:
+                        # the order rests on Y since Y's first book; the request for it is sent while X is processed
+                        script["%s|%d|book" % (Y, ty[0])] = [{"op": "place", "o": "h1", "t": "th1", "sel": 21, "side": "BACK", "price": 3.0, "size": 4.0}]
+                        script["%s|%d|book" % (X, t_act)] = [{"op": "cancel", "on": Y, "o": "h1"} if op == "cancel" else {"op": "replace", "on": Y, "o": "h1", "price": 3.1}]
+                    markets = [mx, my] if first == "X" else [my, mx]
+                    out.append({"id": "xm%d" % k, "cfg": {}, "shared_file": True, "markets": markets,
+                                "strategies": [{"name": "A", "max_live_trade_count": 1000, "markets": [0], "script": script}]})
+    return out
